@@ -8,7 +8,7 @@ from vlib import scenario, bench, lipschitz
 LEVEL = "exploration"
 RULE = ("through the real Calculate: (a) Hill 0..999, Shekel 0..999, Rastrigin(1), XSquared(1): Lipschitz-certified branch-and-bound over the whole segment with an analytic "
         "bound of the Lipschitz constant from the coefficient tables (every point of the box is covered, given that bound); (b) Grishagin 1..100 (49x49 grid in quick, 401x401 in thorough), "
-        "GKLS 2..5 x 1..100, Shekel4 1..3, Rastrigin / XSquared in dimensions 2..12, StronginC3 over its feasible set: dense grid or low-discrepancy sampling + bounded local "
+        "GKLS 2..5 x 1..100, Shekel4 1..3, Rastrigin / XSquared in dimensions 2..12 (and 13..128 by sampling plus axis line searches), StronginC3 over its feasible set: dense grid or low-discrepancy sampling + bounded local "
         "polishing from the best cells, from the declared point and from structure-aware starts (GKLS minimisers and balls, Shekel4 centres). Checked: |f(x_decl)-f_decl| <= 1e-4 (right after construction through the `fv = Calculate(point, fv)` idiom with the holder reused, and again after the instance has been evaluated), "
         "no value below f_decl - 2e-3*max(1,|f_decl|), a point within 0.5% of the side of x_decl whose value is within that tolerance of the best value found. "
         "All instances of a case are constructed before any of them is examined (siblings built later are alive). Non-trivial: every instance; distinct = family member.")
@@ -36,7 +36,14 @@ def cases(tier, seed):
         for d in range(2, 13):
             out.append({"kind": "multi", "key": [fam, d], "seed": seed, "starts": 40 if tier == "quick" else 1200})
     out.append({"kind": "strongin", "g": 200 if tier == "quick" else 600, "seed": seed})
+    # "Rastrigin and XSquared in any dimension": high dimensions, examined by sampling and coordinate-wise line searches
+    for fam in ("rastrigin", "xsquared"):
+        for d in HIGH_DIMS:
+            out.append({"kind": "highdim", "key": [fam, d], "seed": seed, "pts": 400 if tier == "quick" else 4000})
     return out
+
+
+HIGH_DIMS = (13, 16, 20, 24, 31, 32, 33, 40, 48, 64, 100, 128)
 
 
 def lip_bound(key):
@@ -259,6 +266,43 @@ def run_case(c):
         obs["instances"] = obs.get("instances", 0) + 1
         return {"violations": viol, "obs": obs, "nontrivial": True, "keys": ["|".join(map(str, key))],
                 "sample": {"kind": "multistart + polish", "key": key, "starts": len(starts), "best_found": best_v, "declared": fd}}
+    if kind == "highdim":
+        key = c["key"]
+        rng = scenario.rng_for(c["seed"], "C10h", str(key))
+        p = bench.construct(tuple(key))
+        lo, hi = bench.bounds(p)
+        xd, fd = check_declared_value(p, key, viol)
+        n = len(lo)
+        tol = tol_of(fd)
+        best_v, best_x = float("inf"), None
+        # random points, points near the declared one, lattice points (Rastrigin's local minimisers sit near the integers)
+        pts = [lo + rng.random(n) * (hi - lo) for _ in range(c["pts"] // 2)]
+        pts += [np.clip(xd + rng.normal(0, 0.3, n) * (rng.random(n) < 0.1), lo, hi) for _ in range(c["pts"] // 4)]
+        pts += [np.clip(np.round(rng.normal(0, 0.7, n)), np.ceil(lo), np.floor(hi)).astype(float) for _ in range(c["pts"] // 4)]
+        for x in pts:
+            v = float(bench.evaluate(p, x))
+            if v < best_v:
+                best_v, best_x = v, x
+        # line searches through the declared point along every coordinate axis (both families are sums over coordinates)
+        xs = np.minimum(np.maximum(xd, lo), hi)
+        for i in range(n):
+            for tval in np.linspace(lo[i], hi[i], 81):
+                x = xs.copy()
+                x[i] = tval
+                v = float(bench.evaluate(p, x))
+                if v < best_v:
+                    best_v, best_x = v, x
+        obs["sample_points"] = obs.get("sample_points", 0) + len(pts) + 81 * n
+        if best_v < fd - tol:
+            viol.append({"mech": "optimum:lower-value-exists", "key": key, "declared": fd, "found": best_v, "at": [float(v) for v in best_x][:8]})
+        side = hi - lo
+        if np.any(xd < lo - 0.005 * side) or np.any(xd > hi + 0.005 * side):
+            viol.append({"mech": "optimum:declared-point-not-near-a-global-minimiser", "key": key, "what": "outside the box"})
+        recheck_declared(p, key, viol, obs)
+        obs["high_dimensional_instances"] = obs.get("high_dimensional_instances", 0) + 1
+        obs["max_dimension"] = n
+        return {"violations": viol, "obs": obs, "nontrivial": True, "keys": ["|".join(map(str, key))],
+                "sample": {"kind": "high dimension: sampling + axis line searches", "key": key, "best_found": best_v, "declared": fd} if key[1] in (32, 128) else None}
     if kind == "strongin":
         from scipy.optimize import minimize
         key = ["stronginc3"]
@@ -311,6 +355,8 @@ def finalize(obs, tier, stats):
     need = 2002 + 400 + 3 + 22 + 1 + 100
     if obs.get("instances", 0) != need:
         return "only %d of %d instances examined" % (obs.get("instances", 0), need), {}
+    if obs.get("high_dimensional_instances", 0) != 2 * len(HIGH_DIMS):
+        return "high-dimensional Rastrigin / XSquared instances not all examined", {}
     if not obs.get("instances_alive_together"):
         return "instances were never examined while siblings built later were alive", {}
     if obs.get("certified_instances", 0) < 2002:
